@@ -626,7 +626,7 @@ func runC18(c *Ctx) {
 			// whole-level comparison: a positive result needs the topic to have been cut at its level separators
 			var topicParam ssa.Value
 			for _, p := range f.Params {
-				if p.Name() == "topic" {
+				if canonName(p, p.Name()) == "topic" {
 					topicParam = p
 				}
 			}
